@@ -1,7 +1,8 @@
 (* C14 — the HasStates layer of frappy/states.py on top of the state machine model: status derivation
    (state_transition, get_status), start_machine / stop_machine / final_status / on_cleanup, cycle_machine.
-   No interference inside a cycle is modelled here (operations are issued between cycles; the world's w_env is
-   meant to be the constant None).  Executable definitions only. *)
+   start_machine / stop_machine are issued between cycles (operations HStart / HStop) and at every hook inside a cycle
+   (what the world posts at hook n is a call of start_machine resp. stop_machine at that point: from the body of a
+   state or cleanup function, or from a second thread).  Executable definitions only. *)
 From Coq Require Import List Arith ZArith Bool.
 Import ListNotations.
 Require Import FV.Base.Util FV.C14.Model.
@@ -36,12 +37,18 @@ Record hs := {
   st : status;               (* sm.status = what read_status returns *)
   idle : option status;      (* sm.idle_status *)
   log : list status;         (* every status the module parameter was updated with (newest first) *)
+  own : status;              (* specification side: the final status of the run in progress - what this run itself (its state
+                                functions through final_status, its error handler, a stop request during it) has set, default
+                                (IDLE, ''); never read by the model of the code *)
+  late : bool;               (* specification side: a stop_machine took effect inside the transition callback of the
+                                finishing transition (finding C14/stop-while-finishing) *)
 }.
 
 Section Layer.
 Variable C : codes.
 Variable scode : sid -> option Z.        (* status code attached to a state function by @status_code, if any *)
 Variable reset_idle : bool.              (* start_machine passes idle_status=(IDLE, '') with the start request *)
+Variable assign_idle : bool.             (* variant: start_machine assigns sm.idle_status = (IDLE, '') itself, at call time *)
 
 (* get_status(statefunc, default_code) *)
 Definition get_status (idle_st : option status) (f : option sid) (dflt : option Z) : option status :=
@@ -78,21 +85,73 @@ Definition transition (h_st : status) (h_idle : option status) (pend : pend_kind
     end in
   match s1 with Some s => s | None => h_st end.
 
-(* ---- the cycle of the state machine with the layer's callbacks: transition = state_transition, cleanup = on_cleanup,
-   final_status called by state functions.  The control flow repeats Model.turn/inner/round/outer literally; the
-   projection lemma core_h_cycle (HasStatesLemmas.v) shows that the core component is exactly Model.cycle. *)
+Definition with_core (h : hs) (c : sm) : hs :=
+  {| core := c; st := st h; idle := idle h; log := log h; own := own h; late := late h |}.
+
+Definition is_active (s : sm) : bool := active s.
+
+(* start_machine(f, ...) apart from the posting of the request: immediate status, read_status.
+   c' is the machine after the request has been posted; the tests read the machine before *)
+Definition h_start (h : hs) (c' : sm) (f : sid) : hs :=
+  let s0 := match get_status (idle h) (Some f) (Some (c_busy C)) with Some s => s | None => st h end in
+  let s1 := if is_active (core h) then (fst s0, TRestarting) else s0 in
+  {| core := c'; st := s1; idle := if assign_idle then Some (c_idle C, TEmpty) else idle h; log := s1 :: log h;
+     own := own h; late := false |}.
+
+(* stop_machine() on an active machine apart from the posting: idle_status = stopped status, status 'stopping' *)
+Definition h_stop (h : hs) (c' : sm) (fin : bool) : hs :=
+  let c := match get_status (idle h) (statefunc (core h)) (Some (fst (st h))) with
+           | Some s => fst s | None => fst (st h) end in
+  let s1 := (c, TStopping) in
+  {| core := c'; st := s1; idle := Some (c_idle C, TStopped); log := s1 :: log h;
+     own := (c_idle C, TStopped); late := fin || late h |}.
+
+(* final_status(code, text) *)
+Definition set_final (h : hs) (s : status) : hs :=
+  {| core := core h; st := st h; idle := Some s; log := log h; own := s; late := late h |}.
+
+(* a hook of the machine seen from the layer: what the world posts there is a start_machine / stop_machine call.
+   fin: the hook is the transition callback of the finishing transition (new state None) *)
+Definition h_hook (W : world) (fin : bool) (h : hs) : hs :=
+  let n := ctr (core h) in
+  let c' := hook W (core h) in
+  match w_env W n with
+  | None => with_core h c'
+  | Some (TStart _ f _ _) => h_start h c' f
+  | Some (TStop i) => if suppressed W n (TStop i) (core h) then with_core h c' else h_stop h c' fin
+  end.
+
+(* ---- the cycle of the state machine with the layer's callbacks: transition = state_transition, cleanup = on_cleanup
+   (cleanup function 0) or a function given to start_machine, final_status called by state functions.  The control flow
+   repeats Model.turn/inner/round/outer literally; the projection lemma core_h_cycle (HasStatesLemmas.v) shows that the
+   core component is exactly Model.cycle. *)
 Definition h_new_state (W : world) (h : hs) (f : option sid) : hs :=
   let s' := transition (st h) (idle h) (next_task (core h)) f in
-  {| core := new_state W (core h) f; st := s'; idle := idle h; log := s' :: log h |}.   (* all_status_changes: read_status *)
+  let h1 := {| core := emit (core h) (EvTrans (active (core h)) f); st := s'; idle := idle h;
+               log := s' :: log h; own := own h; late := late h |} in        (* all_status_changes: read_status *)
+  let h2 := h_hook W (match f with None => true | Some _ => false end) h1 in
+  with_core h2 (set_statefunc (set_init (core h2) true) f).
 
-(* on_cleanup -> on_error -> final_status(ERROR, repr): only when the cleanup function is really called *)
+(* _cleanup(reason); on_cleanup (function 0) -> on_error -> final_status(ERROR, repr) when the reason is an exception *)
 Definition h_do_cleanup (W : world) (h : hs) (r : reason) : hs * option sid :=
-  let '(c', ret) := do_cleanup W (core h) r in
-  let stored := match cleanup_reason (core h) with Some r' => r' | None => r end in
-  let called := match cleanup (core h) with Some _ => true | None => false end in
-  ({| core := c'; st := st h;
-      idle := if called && Nat.eqb (reason_code stored) 0 then Some (c_error C, TError) else idle h;
-      log := log h |}, ret).
+  let c0 := emit (core h) (EvInt (reason_code r)) in
+  let c1 := match cleanup_reason c0 with None => set_reason c0 (Some r) | Some _ => c0 end in
+  match cleanup c1 with
+  | None => (with_core h c1, None)
+  | Some (owner, c) =>
+      let h1l := h_hook W false (with_core h c1) in
+      let c2 := set_cleanup (core h1l) None in
+      let rc := match cleanup_reason c2 with Some r' => reason_code r' | None => 0 end in
+      let c3 := emit c2 (EvCleanup owner c rc) in
+      let n := ctr c3 in
+      let h3 := if Nat.eqb c 0 && Nat.eqb rc 0 then set_final (with_core h1l c3) (c_error C, TError)
+                else with_core h1l c3 in
+      let h4 := h_hook W false h3 in
+      match w_c W n with
+      | CNext f => (h4, Some f)
+      | CNone | CNonCallable | CRaise => (h4, None)
+      end
+  end.
 
 Inductive hdecision := HRet (h : hs) (r : iret) | HGo (h : hs).
 
@@ -102,10 +161,8 @@ Definition h_after_cleanup (W : world) (p : hs * option sid) : hdecision :=
   | Some f => HGo (h_new_state W (fst p) (Some f))
   end.
 
-Definition with_core (h : hs) (c : sm) : hs := {| core := c; st := st h; idle := idle h; log := log h |}.
-
 Definition h_turn (W : world) (h : hs) : hdecision :=
-  let h := with_core h (hook W (core h)) in
+  let h := h_hook W false h in
   match next_task (core h), cleanup_reason (core h) with
   | Some t, None => h_after_cleanup W (h_do_cleanup W h (RTask t))
   | _, _ =>
@@ -113,15 +170,15 @@ Definition h_turn (W : world) (h : hs) : hdecision :=
       | None => HRet h IBreak
       | Some f =>
           let n := ctr (core h) in
-          let c1 := hook W (emit (core h) (EvCall f (init (core h)))) in
+          let h1 := h_hook W false (with_core h (emit (core h) (EvCall f (init (core h))))) in
           match w_s W n with
-          | BRetry => HRet (with_core h (set_init c1 false)) IReturn
-          | BFinish => HRet (with_core h (set_init c1 false)) IBreak
+          | BRetry => HRet (with_core h1 (set_init (core h1) false)) IReturn
+          | BFinish => HRet (with_core h1 (set_init (core h1) false)) IBreak
           | BFinal c =>
-              HRet {| core := set_init (emit c1 (EvFinal c)) false; st := st h; idle := Some (c, TFinal c); log := log h |} IBreak
-          | BNext g => HGo (h_new_state W (with_core h (set_init c1 false)) (Some g))
-          | BNonCallable => h_after_cleanup W (h_do_cleanup W (with_core h (set_init c1 false)) RExc)
-          | BRaise => h_after_cleanup W (h_do_cleanup W (with_core h c1) RExc)
+              HRet (set_final (with_core h1 (set_init (emit (core h1) (EvFinal c)) false)) (c, TFinal c)) IBreak
+          | BNext g => HGo (h_new_state W (with_core h1 (set_init (core h1) false)) (Some g))
+          | BNonCallable => h_after_cleanup W (h_do_cleanup W (with_core h1 (set_init (core h1) false)) RExc)
+          | BRaise => h_after_cleanup W (h_do_cleanup W h1 RExc)
           end
       end
   end.
@@ -135,19 +192,28 @@ Fixpoint h_inner (W : world) (k : nat) (h : hs) : hs * iret :=
             end
   end.
 
+(* the statements under and after the lock of the pick-up *)
+Definition h_pickup_locked (W : world) (h : hs) : hs :=
+  match next_task (core h) with
+  | None => h
+  | Some (TStop _) => with_core h (pickup_locked W (core h))
+  | Some (TStart i f cl kw) =>
+      (* cleanup_reason := None, then _new_state(newstate) with next_task already cleared, then the attributes
+         (idle_status among them when start_machine passed it) *)
+      let c2 := emit (set_reason (set_next_task (core h) None) None)
+                     (EvPickup i (match cl with Some _ => true | None => false end)) in
+      let h3 := h_new_state W (with_core h c2) (Some f) in
+      let c4 := set_attrs (set_cleanup (core h3) (match cl with Some c => Some (i, c) | None => None end))
+                          (upd_all kw (attrs (core h3))) in
+      {| core := c4; st := st h3; idle := if reset_idle then Some (c_idle C, TEmpty) else idle h3; log := log h3;
+         own := (c_idle C, TEmpty);          (* a new run begins *)
+         late := late h3 |}
+  end.
+
 Definition h_pickup (W : world) (h : hs) : hs :=
   match next_task (core h) with
   | None => h
-  | Some (TStop _) => with_core h (pickup W (core h))
-  | Some (TStart _ f _ _) =>
-      (* cleanup_reason := None, then _new_state(newstate) with next_task already cleared, then the attributes *)
-      let c1 := emit (set_reason (set_next_task (core h) None) None)
-                     (EvPickup (task_id (match next_task (core h) with Some t => t | None => TStop 0 end))
-                               (match next_task (core h) with Some (TStart _ _ (Some _) _) => true | _ => false end)) in
-      let s' := transition (st h) (idle h) None (Some f) in
-      {| core := pickup W (core h); st := s';
-         idle := if reset_idle then Some (c_idle C, TEmpty) else idle h;
-         log := s' :: log h |}
+  | Some _ => h_pickup_locked W (h_hook W false h)
   end.
 
 Definition h_round (W : world) (maxloops : nat) (h : hs) : hs * bool :=
@@ -175,32 +241,22 @@ Fixpoint h_outer (W : world) (maxloops : nat) (k : nat) (h : hs) : hs :=
   end.
 
 Inductive hop :=
-| HStart (tid : nat) (f : sid) (kw : list (nat * Z))   (* start_machine(f, **kw) with the default cleanup on_cleanup *)
+| HStart (tid : nat) (f : sid) (cl : cid) (kw : list (nat * Z))   (* start_machine(f, cleanup=..., **kw); cleanup 0 = on_cleanup *)
 | HStop (tid : nat)                                    (* stop_machine() *)
 | HCycle.                                              (* cycle_machine() *)
 
-Definition is_active (s : sm) : bool := match statefunc s with Some _ => true | None => false end.
-
 Definition hstep (W : world) (maxloops rounds : nat) (h : hs) (o : hop) : hs :=
   match o with
-  | HStart tid f kw =>
-      let s0 := match get_status (idle h) (Some f) (Some (c_busy C)) with Some s => s | None => st h end in
-      let s1 := if is_active (core h) then (fst s0, TRestarting) else s0 in
-      {| core := post (core h) (TStart tid f (Some 0) kw); st := s1; idle := idle h; log := s1 :: log h |}
-  | HStop tid =>
-      if is_active (core h) then
-        let c := match get_status (idle h) (statefunc (core h)) (Some (fst (st h))) with
-                 | Some s => fst s | None => fst (st h) end in
-        let s1 := (c, TStopping) in
-        {| core := post (core h) (TStop tid); st := s1; idle := Some (c_idle C, TStopped); log := s1 :: log h |}
-      else h
+  | HStart tid f cl kw => h_start h (post (core h) (TStart tid f (Some cl) kw)) f
+  | HStop tid => if is_active (core h) then h_stop h (post (core h) (TStop tid)) false else h
   | HCycle =>
       let h' := h_outer W maxloops rounds h in
-      {| core := core h'; st := st h'; idle := idle h'; log := st h' :: log h' |}          (* read_status at the end *)
+      {| core := core h'; st := st h'; idle := idle h'; log := st h' :: log h'; own := own h'; late := late h' |}   (* read_status at the end *)
   end.
 
 Definition hs0 : hs :=
-  {| core := sm0; st := (c_idle C, TEmpty); idle := Some (c_idle C, TEmpty); log := [] |}.
+  {| core := sm0; st := (c_idle C, TEmpty); idle := Some (c_idle C, TEmpty); log := [];
+     own := (c_idle C, TEmpty); late := false |}.
 
 Definition hrun (W : world) (maxloops rounds : nat) (ops : list hop) : hs :=
   fold_left (hstep W maxloops rounds) ops hs0.
